@@ -93,6 +93,7 @@ func (cc *caseCtx) emitFuzz(f fuzzOut, contract common.Address) {
 		v = "ok"
 	}
 	c.Line("endraw "+v, "ok")
+	sharedConstants(cc.fail, "synthetic trace on the real environment")
 	for i, a := range f.post {
 		id := i + 1
 		c.Line(fmt.Sprintf("q bal %d", id), "n"+a.Bal.String())
